@@ -46,7 +46,7 @@ func init() {
 					"C25-K1:neg/CONV int8 (uint8)",
 					"C25-K1:neg/NEG int64 (int64)",
 					"C25-K1:quo/QUO int64 (l, r)",
-					"C25-K1:quo/CONV int64 (math.Floor)",
+					"C25-K1:quo/CONV int64 (math.Floor(f))",
 					"C25-K2:add<-Other",
 				},
 				func(fc *Ctx) {
